@@ -83,8 +83,10 @@ theorem stepInstr_ec (cfg : Cfg) (harg : cfg.arg = .first) (sh : Shared) (pooled
       · trivial
       · exact hr _ j hj
     · exact ⟨cons trivial, by simp⟩
-    · refine ⟨?_, by simp⟩
-      cases pooled <;> simp [ECok]
+    · split
+      · exact ⟨cons trivial, by simp⟩
+      · refine ⟨?_, by simp⟩
+        cases pooled <;> simp [ECok]
   | track e => exact ⟨cons trivial, by simp [stepInstr]⟩
   | dec e =>
     simp only [stepInstr, harg]
@@ -234,7 +236,7 @@ theorem mainEC_step {cfg : Cfg} (harg : cfg.arg = .first) {s s' : State} {n : Na
       | start st => simp only [stepInstr]; split <;> exact hinv.res
       | register st => exact hinv.res
       | launch st => simp only [stepInstr]; split <;> exact hinv.res
-      | exec st => simp only [stepInstr]; split <;> exact hinv.res
+      | exec st => simp only [stepInstr]; (repeat' split) <;> exact hinv.res
       | track e => exact hinv.res
       | dec e => simp only [stepInstr]; (repeat' split) <;> exact hinv.res
 
